@@ -80,6 +80,33 @@ PROPS = {
 }
 
 
+# ----------------------------------------------------------------------------- source ties (T1, harness/pysrc.py)
+# direct: component functions translated from the repository's source whose tie theorem belongs to the property
+# (a broken one is a broken obligation of that property);
+# shared: the compositions (whole perform_action, the environment wrapper, the assembled refinement) every dynamics
+# property rests on - a broken one is charged only when the run found no concrete failing input for any property
+# ("explained drift", DESIGN §5).
+SRC_DIRECT = {
+    "C01": ["SrcHostAccess"],
+    "C02": ["SrcPerm", "SrcScan"],
+    "C03": ["SrcReach", "SrcScan", "SrcReset"],
+    "C04": ["SrcHostAccess", "SrcReset"],
+    "C05": ["SrcHostValue", "SrcScan"],
+    "C06": ["SrcGoal"],
+    "C07": [],
+    "C08": ["SrcHost"],
+    "C12": [],
+    "C13": [],
+}
+SRC_SHARED = ["SrcBase", "SrcPerform", "SrcEnv", "SrcAll", "SrcScen"]
+for _pid, _mods in SRC_DIRECT.items():
+    PROPS[_pid]["src"] = _mods
+    PROPS[_pid]["src_shared"] = SRC_SHARED
+    PROPS[_pid].setdefault("trusted_extra", []).append(
+        "source translator harness/pysrc.py: the vocabulary ATTR/PRIM (how an attribute or primitive method of the "
+        "Python objects is spelled over the model's records) and Model/PyRt.lean (forEach, host views, dict stores)")
+
+
 def evaluations(r):
     return int(r.get("evaluations", r.get("transitions", 0) + r.get("walk_ops", 0)))
 
